@@ -126,6 +126,16 @@ def contract(ai, st, bi, ce, args, atys, dty, key, L):
         ai.site(bi, "call", p, ok, "lane count reaching argon2::ParamsBuilder::p_cost is not bounded below 2^29 (argon2 multiplies it by 8 before its own range check): "
                 + (str(ai.iv(st, args[1])) if is_lin(args[1]) else "unknown"))
         return NotImplemented
+    if p in ("generic_array::GenericArray::<T, N>::from_slice", "generic_array::GenericArray::<T, N>::from_mut_slice") and len(args) == 1:
+        # panics iff the slice is not exactly N elements long
+        from facts import short as _short
+        m_ = re.search(r"GenericArray::<u8, U(\d+)>::from_(mut_)?slice", _short(ce.get("r_full") or ce.get("full", "")))
+        n_ = int(m_.group(1)) if m_ else None
+        ln = L(0)
+        ok = n_ is not None and is_lin(ln) and ai.iv(st, ln) == (n_, n_)
+        ai.site(bi, "call", p, ok, f"GenericArray::from_slice needs exactly {n_} bytes, the argument's length is "
+                + (str(ai.iv(st, ln)) if is_lin(ln) else "unknown"))
+        return NotImplemented
     if p.endswith(("::to_public_key_der", "::to_pkcs1_der")) and ce.get("crate") in ("spki", "pkcs1"):
         return ("o", 0, None, TRUE)
     if p == "digest::mac::Mac::new_from_slice":
